@@ -110,6 +110,7 @@ class CallsMixin:
         inner = st  # bindings are local to the comprehension
         saved = dict(st.env)
         st.guards.append(z3.And(0 <= i, i < m.n))
+        self.quant_depth = getattr(self, 'quant_depth', 0) + 1
         try:
             self.bind_target(g.target, m.item(i, st), st)
             conds = [self.truth(self.eval(c, st), st) for c in g.ifs]
@@ -124,6 +125,7 @@ class CallsMixin:
         finally:
             st.guards.pop()
             st.env = saved
+            self.quant_depth -= 1
         if elt_t is None:
             raise Unsupported('comprehension of python-level tuples')
         if not conds:
@@ -181,6 +183,7 @@ class CallsMixin:
             item = m.item(i, st)
             bv = [i]
         st.guards.append(dom)
+        self.quant_depth = getattr(self, 'quant_depth', 0) + 1
         try:
             self.bind_target(g.target, item, st)
             conds = [self.truth(self.eval(c, st), st) for c in g.ifs]
@@ -194,6 +197,7 @@ class CallsMixin:
         finally:
             st.guards.pop()
             st.env = saved
+            self.quant_depth -= 1
         d = And(dom, *conds)
         return V(BOOL, z3.ForAll(bv, z3.Implies(d, body)) if is_all else z3.Exists(bv, z3.And(d, body)))
 
@@ -707,9 +711,13 @@ class CallsMixin:
         if spec.get('pure_expr'):
             # a side-effect free callee whose result is a function of its arguments (usable under quantifiers)
             return self.eval_spec_expr(spec['pure_expr'], env, st, st)
-        if st.guards and not self.in_spec:
-            raise Unsupported(f'call to {label} inside a comprehension / short-circuit context: its result must be a '
-                              f'function of the arguments (give the callee spec a `pure_expr`)')
+        guarded = bool(st.guards) and not self.in_spec
+        if guarded:
+            if getattr(self, 'quant_depth', 0) > 0:
+                raise Unsupported(f'call to {label} inside a comprehension: its result must be a function of the '
+                                  f'arguments (give the callee spec a `pure_expr`)')
+            if spec.get('modifies') or spec.get('raises') or spec.get('allocates'):
+                raise Unsupported(f'call to {label} with side effects in a short-circuit context')
         ordn = getattr(self, 'call_ord', {}).get(id(node), 0)
         saved_defs = self.contract.get('defs')
         if spec.get('defs'):
@@ -722,7 +730,8 @@ class CallsMixin:
         for lab, r in self.norm_clauses(spec.get('requires', ())):
             g = self.eval_spec(r, env, st, pre=st)
             self.emit(st, 'call-pre', f'{label}#{ordn}:{lab}', g, node=node)
-            st.assume(g)
+            if not st.guards:
+                st.assume(g)
         pre = st.copy()
         rty = spec.get('returns')
         result = None
@@ -755,7 +764,9 @@ class CallsMixin:
                 self.pending_raises.append((exc, w, pre))
                 st.assume(z3.Not(w))
         for lab, e in self.norm_clauses(spec.get('ensures', ())):
-            st.assume(self.eval_spec(e, env2, st, pre=pre))
+            g = self.eval_spec(e, env2, st, pre=pre)
+            # under a short-circuit guard the call only happens when the guard holds
+            st.pc.append(z3.Implies(z3.And(*st.guards), g) if guarded else g) if not z3.is_true(g) else None
         if spec.get('defs'):
             self.contract = dict(self.contract)
             self.contract['defs'] = saved_defs or {}
